@@ -253,7 +253,7 @@ class Engine:
     # names
 
     def resolve_global(self, name, mi):
-        if name in mi.classes or name in ("Fragment", "Gap", "Scaffold", "OverlapResult", "Assembly", "IndexedAssembly", "FoundFragment", "BytesIO"):
+        if name in mi.classes or name in ("Fragment", "Gap", "Scaffold", "OverlapResult", "Assembly", "IndexedAssembly", "FoundFragment", "BytesIO", "ChrNamer"):
             return Val(TConst(), ("class", name))
         if name in mi.imports:
             tgt = mi.imports[name]
@@ -1782,6 +1782,23 @@ class Engine:
                 for nm in (nh, nv, szn):
                     self.note_write(nm, recv.z)
                 return [(s, unpack(ty.val, res))]
+            if name == "values" and not pos and not kw:
+                # d.values(): a list each of whose elements is the value stored under some present key (which key,
+                # how many and in which order is not modelled: code that depends on that cannot be verified)
+                new = s.new_ref()
+                arr = smt.fresh("values", z3.ArraySort(smt.Int, ty.val.sort()))
+                cnt = smt.fresh("nvalues", smt.Int)
+                s.assume(cnt >= 0)
+                set_list(s, ty.val, new, arr=arr, lo=z3.IntVal(0), hi=cnt)
+                k0 = smt.fresh("k", smt.Int)
+                keyof = z3.Function(f"valuekey!{smt._fresh_n[0]}", smt.Int, ty.key.sort())
+                s.assume(z3.ForAll([k0], z3.Implies(z3.And(0 <= k0, k0 < cnt), z3.And(has[recv.z][keyof(k0)], arr[k0] == val[recv.z][keyof(k0)])), patterns=[arr[k0]]))
+                if isinstance(ty.val, TRef):
+                    k_ = smt.fresh("k", smt.Int)
+                    cm = class_map(s)
+                    s.assume(z3.ForAll([k_], z3.Implies(z3.And(0 <= k_, k_ < cnt), z3.And(arr[k_] >= 1, arr[k_] < s.alloc,
+                             z3.Or(*[cm[arr[k_]] == CLASSES[c]["id"] for c in subclasses(ty.val.cls)])))))
+                return [(s, Val(TList(ty.val), new))]
             if name == "get":
                 kz = pack(pos[0], ty.key)
                 if len(pos) == 1:
@@ -2564,6 +2581,9 @@ class Engine:
         recv = res[0][1]
         if not isinstance(recv.ty, TRef):
             return None
+        gcon = find_contract(recv.ty.cls, name)
+        if gcon is not None and getattr(gcon, "as_list", False):
+            return None  # called by contract: the generator is the list of what it yields
         for c in [recv.ty.cls] + CLASSES[recv.ty.cls]["bases"]:
             for modname in CLASS_MODULES.get(c, []):
                 mi = source.load(modname)
@@ -2702,4 +2722,5 @@ CLASS_MODULES = {
     "FastaInfo": ["tola.fasta.index"],
     "FastaStream": ["tola.fasta.stream"],
     "AssemblyStats": ["tola.assembly.assembly_stats"],
+    "ChrNamer": ["tola.assembly.build_utils"],
 }
